@@ -8,6 +8,6 @@ CONSTANTS
   TRY_EMPTY = TRUE
   FORGET = ""
 INVARIANTS TypeOK OutcomeOK RightPasswordOpens EmptyUserNeedsNone WrongPasswordFails
-  UserAccessPerms OwnerAccessPerms KeyOnlyByCheck ContentOK NoContentOnFailure PermsOK SchemeOK
+  UserAccessPerms OwnerAccessPerms KeyOnlyByCheck ContentOK NoContentOnFailure PermsOK SchemeOK RefusalOK
   RunAgrees NotStuck
 CHECK_DEADLOCK FALSE
